@@ -3,6 +3,7 @@ import HdVerif.Proofs.VolumeOrient
 import HdVerif.Proofs.VolumeChannels
 import HdVerif.Proofs.VolumeOnto
 import HdVerif.Proofs.VolumeTie
+import HdVerif.Proofs.VolumeAccess
 /-! # C08  Volume operations never move a voxel in physical space
 
 Property theorems only (helper lemmas: `Proofs/Volume.lean`; model: `Model/Volume.lean`).
@@ -562,5 +563,293 @@ example : planAxisSrc (.P, .R, .H) .F 0 = .ok (2, true, 2) ∧ planAxisSrc (.P, 
     srcStat "MEDIAN" [3, 1, 2] = some 2 ∧ PermValid (.a1, .a2, .a0) := by
   refine ⟨by decide +kernel, by decide +kernel, by decide +kernel, ?_⟩
   simp [PermValid]
+
+
+/-! # round 2 -/
+
+/-! ## inverse pairs are identities -/
+
+/-- **flip twice = identity**: `v.flip_spatial(axes).flip_spatial(axes)` has the geometry of `v` (shape, affine) and
+its index map composed with the first one is the identity (valid axes, for a `VolumeGeometry` and for the array alike). -/
+theorem flip_twice_is_identity (g : Geom) (axes : List Int) (hp : g.Pos)
+    (hv : (axes.length > 3 || axes.any (fun a => !validAxis a)) = false) :
+    ∃ r1 r2, flipG AxMap.size g axes = .ok r1 ∧ flipG AxMap.size r1.1 axes = .ok r2 ∧ r2.1 = g ∧ ∀ j, r1.2 (r2.2 j) = j :=
+  flipG_twice AxMap.size szOk_size g axes hp hv
+
+/-- **permute, then permute by `argsort(indices)` = identity** (every accepted permutation, cyclic ones included). -/
+theorem permute_then_inverse_is_identity (g : Geom) (p : List Int) (r1 : GStep) (h : permuteG g p = .ok r1) :
+    ∃ q r2, permOfList p = .ok q ∧ permuteG r1.1 (invPerm q).toList = .ok r2 ∧ r2.1 = g ∧ ∀ j, r1.2 (r2.2 j) = j :=
+  permuteG_inverse h
+
+/-- **swap twice = identity**. -/
+theorem swap_twice_is_identity (g : Geom) (a b : Int) (r1 : GStep) (h : swapG g a b = .ok r1) :
+    ∃ r2, swapG r1.1 a b = .ok r2 ∧ r2.1 = g ∧ ∀ j, r1.2 (r2.2 j) = j :=
+  swapG_twice h
+
+/-- **pad, then index `[before : before + n]` on every axis = identity**: any non-negative widths; the crop is accepted,
+restores shape and affine exactly, and every voxel comes back to its index. -/
+theorem pad_then_crop_is_identity (g : Geom) (hp : g.Pos) (full : FullPad)
+    (hf : 0 ≤ full.1.1 ∧ 0 ≤ full.1.2 ∧ 0 ≤ full.2.1.1 ∧ 0 ≤ full.2.1.2 ∧ 0 ≤ full.2.2.1 ∧ 0 ≤ full.2.2.2) :
+    ∃ r1 r2, padFullG AxMap.size g full = .ok r1 ∧
+      getitemG AxMap.size r1.1 [Item.slice (some full.1.1) (some (full.1.1 + g.n0)) none,
+                                Item.slice (some full.2.1.1) (some (full.2.1.1 + g.n1)) none,
+                                Item.slice (some full.2.2.1) (some (full.2.2.1 + g.n2)) none] = .ok r2 ∧
+      r2.1 = g ∧ ∀ j, r1.2 (r2.2 j) = j :=
+  padFullG_then_crop AxMap.size szOk_size g hp full hf
+
+/-- **pad_to_spatial_shape, then crop_to_spatial_shape to the old shape = identity**: the centre crop (T9b) removes exactly
+what the centred padding (T9a) added — both put `⌊difference / 2⌋` in front. -/
+theorem padTo_then_cropTo_is_identity (g : Geom) (hp : g.Pos) (s : List Int) (r1 : GStep)
+    (h : padToG AxMap.size g s = .ok r1) :
+    ∃ r2, cropToG AxMap.size r1.1 [g.n0, g.n1, g.n2] = .ok r2 ∧ r2.1 = g ∧ ∀ j, r1.2 (r2.2 j) = j :=
+  padTo_then_cropTo AxMap.size szOk_size hp h
+
+/-- **Any pair (operation that loses nothing, operation that adds nothing) that restores the geometry restores the
+volume**: if `op1` is one of flip / permute / swap / pad / pad_to / re-orientation / handedness / copy, `op2` is not a
+padding operation, and the result has the shape and affine of `v`, then every voxel holds its original value in every
+channel (so the five identities above hold for the arrays as well). -/
+theorem inverse_pair_restores_volume (coord : Coord) (v : Vol) (op1 op2 : SOp) (w1 w2 : VStep) (hp : v.geom.Pos)
+    (ho : v.geom.Orth) (hk : op1.keepsAll = true) (hc : op2.cropping = true) (h1 : op1.applyVol coord v = .ok w1)
+    (h2 : op2.applyVol coord w1.1 = .ok w2) (hg : w2.1.geom = v.geom) (j : I3) (hj : v.geom.inRange j = true)
+    (c : List Nat) : w2.1.arr j c = v.arr j c := by
+  obtain ⟨k, hk1, hk2, hk3⟩ := keepsAll_step_supermap hp hk h1 ⟨j, hj, rfl, rfl⟩
+  obtain ⟨a1, _, _, _⟩ := applyVol_sound hp h1
+  obtain ⟨a2, b2, _, d2⟩ := applyVol_sound a1.shape h2
+  have hj2 : w2.1.geom.inRange j = true := by rw [hg]; exact hj
+  cases hprov : w2.2 j with
+  | none => exact absurd hprov (d2 hc j hj2)
+  | some k' =>
+    obtain ⟨e1, _⟩ := a2.retained j k' hprov
+    rw [hg] at e1
+    have : k' = k := pos_injective (a1.orth ho) (e1.symm.trans hk2.symm)
+    subst this
+    rw [b2.values j k' hprov c, hk3]
+
+/-! ## a volume is a partial map from physical points to values, and operations refine it -/
+
+/-- a scaled orthogonal volume shows at most one value per physical point and channel cell -/
+theorem volume_is_partial_map (v : Vol) (ho : v.geom.Orth) (p : V3) (c : List Nat) (x y : Rat)
+    (hx : v.Shows p c x) (hy : v.Shows p c y) : x = y :=
+  shows_functional ho hx hy
+
+/-- **One operation refines the partial map**: whatever a voxel of the result shows at physical point `p` is what the
+input showed at `p` — or the operation is a padding one and `p` is a point of the input's lattice (a new voxel). -/
+theorem op_refines_partial_map (coord : Coord) (v : Vol) (op : SOp) (w : VStep) (hp : v.geom.Pos)
+    (h : op.applyVol coord v = .ok w) (p : V3) (c : List Nat) (x : Rat) (hs : w.1.Shows p c x) :
+    v.Shows p c x ∨ (op.cropping = false ∧ v.geom.OnLattice p) :=
+  step_partial_map hp h hs
+
+/-- for `pad` / `pad_to_spatial_shape` (and every other operation that selects nothing) a new voxel never sits on a
+point where the input had a voxel -/
+theorem pad_new_voxels_off_the_input (coord : Coord) (v : Vol) (op : SOp) (w : VStep) (hp : v.geom.Pos) (ho : v.geom.Orth)
+    (hk : op.keepsAll = true) (h : op.applyVol coord v = .ok w) (j : I3) (hn : w.2 j = none) :
+    ¬ v.geom.Covers (w.1.geom.pos j) :=
+  pad_new_points_uncovered hp ho hk h j hn
+
+/-- **flip / permute / swap / re-orient / handedness / copy leave the partial map unchanged** -/
+theorem rearranging_op_same_partial_map (coord : Coord) (v : Vol) (op : SOp) (w : VStep) (hp : v.geom.Pos)
+    (hr : op.rearranges = true) (h : op.applyVol coord v = .ok w) (p : V3) (c : List Nat) (x : Rat) :
+    w.1.Shows p c x ↔ v.Shows p c x := by
+  simp only [SOp.rearranges, Bool.and_eq_true] at hr
+  constructor
+  · intro hs
+    rcases step_partial_map hp h hs with h1 | ⟨h1, _⟩
+    · exact h1
+    · rw [hr.1] at h1; cases h1
+  · exact keepsAll_step_supermap hp hr.2 h
+
+/-- **Histories refine the partial map** (induction over arbitrary finite lists of spatial operations): what the final
+volume shows at `p` is what the original showed at `p`, or `p` is a lattice point of the original (padding). -/
+theorem history_refines_partial_map (coord : Coord) (v : Vol) (ops : List Op) (w : VStep) (hp : v.geom.Pos)
+    (hs : allSpatial (fun _ => true) ops) (h : runHistory coord v ops = .ok w) (p : V3) (c : List Nat) (x : Rat)
+    (hw : w.1.Shows p c x) : v.Shows p c x ∨ v.geom.OnLattice p :=
+  history_partial_map ops hp hs h hw
+
+/-- histories without padding: the final partial map is a restriction of the original one -/
+theorem cropping_history_is_submap (coord : Coord) (v : Vol) (ops : List Op) (w : VStep) (hp : v.geom.Pos)
+    (hs : allSpatial SOp.cropping ops) (h : runHistory coord v ops = .ok w) (p : V3) (c : List Nat) (x : Rat)
+    (hw : w.1.Shows p c x) : v.Shows p c x :=
+  history_submap ops hp hs h hw
+
+/-- histories without selection (flip, permute, swap, pad, pad_to, re-orient, handedness, copy): an extension -/
+theorem lossless_history_is_supermap (coord : Coord) (v : Vol) (ops : List Op) (w : VStep) (hp : v.geom.Pos)
+    (hs : allSpatial SOp.keepsAll ops) (h : runHistory coord v ops = .ok w) (p : V3) (c : List Nat) (x : Rat)
+    (hv : v.Shows p c x) : w.1.Shows p c x :=
+  history_supermap ops hp hs h hv
+
+/-- histories of rearrangements only: the same partial map -/
+theorem rearranging_history_same_partial_map (coord : Coord) (v : Vol) (ops : List Op) (w : VStep) (hp : v.geom.Pos)
+    (hs : allSpatial SOp.rearranges ops) (h : runHistory coord v ops = .ok w) (p : V3) (c : List Nat) (x : Rat) :
+    w.1.Shows p c x ↔ v.Shows p c x := by
+  have h1 : allSpatial SOp.cropping ops := fun op hop => by
+    obtain ⟨s, e, hr⟩ := hs op hop
+    simp only [SOp.rearranges, Bool.and_eq_true] at hr
+    exact ⟨s, e, hr.1⟩
+  have h2 : allSpatial SOp.keepsAll ops := fun op hop => by
+    obtain ⟨s, e, hr⟩ := hs op hop
+    simp only [SOp.rearranges, Bool.and_eq_true] at hr
+    exact ⟨s, e, hr.2⟩
+  exact ⟨history_submap ops hp h1 h, history_supermap ops hp h2 h⟩
+
+/-! ## accessors -/
+
+/-- **Bridge (T9n)**: the current source of `position`, `spacing_vectors()`, `affine`, `spacing`, `pixel_spacing`,
+`spacing_between_slices`, `unit_vectors()`, `direction`, `direction_cosines`, `voxel_volume`, `physical_extent`,
+`physical_volume`, `center_indices`, `nearest_center_indices`, run on a symbolic affine / shape / square root, computes
+exactly the model's translation, columns, `spacingWith`, `unitWith`, … — for every square-root function.  In particular
+`pixel_spacing` = spacings of axes (1, 2), `spacing_between_slices` = spacing of axis 0, `direction_cosines` = unit vectors
+of axes (2, 1) in this order. -/
+theorem bridge_accessors (sq : Rat → Rat) (g : Geom) :
+    accPosition sq g.entry g.dim = g.t.toList ∧
+    accSpacingVectors sq g.entry g.dim = g.c0.toList ++ g.c1.toList ++ g.c2.toList ∧
+    accAffine sq g.entry g.dim = [g.c0.x, g.c1.x, g.c2.x, g.t.x, g.c0.y, g.c1.y, g.c2.y, g.t.y, g.c0.z, g.c1.z, g.c2.z, g.t.z] ∧
+    accSpacing sq g.entry g.dim = [g.spacingWith sq .a0, g.spacingWith sq .a1, g.spacingWith sq .a2] ∧
+    accPixelSpacing sq g.entry g.dim = [g.spacingWith sq .a1, g.spacingWith sq .a2] ∧
+    accSpacingBetweenSlices sq g.entry g.dim = [g.spacingWith sq .a0] ∧
+    accUnitVectors sq g.entry g.dim = (g.unitWith sq .a0).toList ++ (g.unitWith sq .a1).toList ++ (g.unitWith sq .a2).toList ∧
+    accDirection sq g.entry g.dim =
+      [(g.unitWith sq .a0).x, (g.unitWith sq .a1).x, (g.unitWith sq .a2).x,
+       (g.unitWith sq .a0).y, (g.unitWith sq .a1).y, (g.unitWith sq .a2).y,
+       (g.unitWith sq .a0).z, (g.unitWith sq .a1).z, (g.unitWith sq .a2).z] ∧
+    accDirectionCosines sq g.entry g.dim = (g.unitWith sq .a2).toList ++ (g.unitWith sq .a1).toList ∧
+    accVoxelVolume sq g.entry g.dim = [g.spacingWith sq .a0 * g.spacingWith sq .a1 * g.spacingWith sq .a2] ∧
+    accPhysicalExtent sq g.entry g.dim =
+      [(g.n0 : Rat) * g.spacingWith sq .a0, (g.n1 : Rat) * g.spacingWith sq .a1, (g.n2 : Rat) * g.spacingWith sq .a2] ∧
+    accPhysicalVolume sq g.entry g.dim =
+      [g.spacingWith sq .a0 * g.spacingWith sq .a1 * g.spacingWith sq .a2 * ((g.n0 : Rat) * g.n1 * g.n2)] ∧
+    accCenterIndices sq g.entry g.dim = [((g.n0 : Rat) - 1) / 2, ((g.n1 : Rat) - 1) / 2, ((g.n2 : Rat) - 1) / 2] ∧
+    accNearestCenterIndices sq g.entry g.dim = [(g.n0 - 1) / 2, (g.n1 - 1) / 2, (g.n2 - 1) / 2] :=
+  ⟨acc_position sq g, acc_spacing_vectors sq g, acc_affine sq g, acc_spacing sq g, (acc_pixel_spacing sq g).1,
+   (acc_pixel_spacing sq g).2, acc_unit_vectors sq g, acc_direction sq g, acc_direction_cosines sq g,
+   (acc_extent_volume sq g).1, (acc_extent_volume sq g).2.1, (acc_extent_volume sq g).2.2, (acc_center sq g).1,
+   (acc_center sq g).2⟩
+
+/-- **Bridge (T9n)**: `handedness` compares the triple product of the affine's columns (the model's `Geom.triple`) with
+zero and reports LEFT_HANDED exactly when it is negative (`Geom.leftHanded`, on which `ensureHandedness_spec` rests). -/
+theorem bridge_handedness (g : Geom) :
+    accHandednessTest g.entry = g.triple ∧ accHandednessMembers = ("LEFT_HANDED", "RIGHT_HANDED") ∧
+    (g.leftHanded = true ↔ accHandednessTest g.entry < 0) :=
+  acc_handedness g
+
+/-- **The accessors are consistent with the affine**: `position + Σ_d (index_d · spacing_d) · unit_vector_d` is
+`map_indices_to_reference(index)` — for every square-root function whose value at a column's squared length is not zero
+(floating-point `sqrt` of a non-zero column): rebuilding the affine from `spacing`, `unit_vectors()` / `direction` and
+`position` (what `from_components` does) gives the affine back. -/
+theorem accessors_recompose_affine (sq : Rat → Rat) (g : Geom) (h : ∀ d, g.spacingWith sq d ≠ 0) (i : I3) :
+    g.recompose sq = g ∧ (g.recompose sq).pos i = g.pos i := by
+  rw [recompose_eq sq g h]; exact ⟨rfl, rfl⟩
+
+/-- `nearest_center_indices` addresses a voxel, at most half a voxel below the exact centre `(n - 1) / 2` -/
+theorem nearest_center_is_central_voxel (n : Int) (hn : 0 < n) :
+    0 ≤ (n - 1) / 2 ∧ (n - 1) / 2 < n ∧ 2 * ((n - 1) / 2) ≤ n - 1 ∧ n - 1 ≤ 2 * ((n - 1) / 2) + 1 :=
+  nearest_center_in_range n hn
+
+/-- after every accepted operation `position` (the translation) is the physical point of the input voxel the new
+index (0, 0, 0) shows -/
+theorem op_origin_is_source_voxel (coord : Coord) (g : Geom) (op : SOp) (r : GStep) (hp : g.Pos)
+    (h : op.applyGeom coord g = .ok r) : r.1.t = g.pos (r.2 ⟨0, 0, 0⟩) := by
+  have := (applyG_sound AxMap.size szOk_size hp h).1.position ⟨0, 0, 0⟩
+  rw [← this]
+  apply V3.ext' <;> simp [Geom.pos, V3.add, V3.smul]
+
+/-- **Column structure**: after every accepted operation each column of the affine is a non-zero integer multiple of
+one column of the input, each input column being used once — spacings change by the stride only, directions by a sign and a
+permutation (`spacing`² of axis `d` = `k_d²` · `spacing`² of the source axis). -/
+theorem op_columns_are_multiples (coord : Coord) (g : Geom) (op : SOp) (r : GStep) (hp : g.Pos)
+    (h : op.applyGeom coord g = .ok r) :
+    ∃ (e : Ax → Ax) (k : Ax → Int), Function.Injective e ∧ (∀ d, k d ≠ 0) ∧
+      (∀ d, r.1.col d = V3.smul (k d) (g.col (e d))) ∧
+      ∀ d, r.1.spacingSq d = ((k d : Rat) * (k d : Rat)) * g.spacingSq (e d) := by
+  obtain ⟨e, k, i, z, c⟩ := applyG_cols AxMap.size szOk_size hp h
+  exact ⟨e, k, i, z, c, fun d => by simp only [Geom.spacingSq, c d, dot_smul]⟩
+
+/-- the same over every history (induction; channel operations and `with_array` leave the affine alone) -/
+theorem history_columns_are_multiples (coord : Coord) (v : Vol) (ops : List Op) (w : VStep) (hp : v.geom.Pos)
+    (h : runHistory coord v ops = .ok w) :
+    ∃ (e : Ax → Ax) (k : Ax → Int), Function.Injective e ∧ (∀ d, k d ≠ 0) ∧
+      (∀ d, w.1.geom.col d = V3.smul (k d) (v.geom.col (e d))) ∧
+      ∀ d, w.1.geom.spacingSq d = ((k d : Rat) * (k d : Rat)) * v.geom.spacingSq (e d) := by
+  obtain ⟨e, k, i, z, c⟩ := history_cols ops hp h
+  exact ⟨e, k, i, z, c, fun d => by simp only [Geom.spacingSq, c d, dot_smul]⟩
+
+/-! ## randomised conveniences (values drawn by numpy are parameters) -/
+
+/-- **random_spatial_crop**: requested sizes `1 ≤ c ≤ n`, and ANY values the generator may return
+(`np.random.randint(0, n - c + 1)`: the bounds are regenerated, T9m): accepted; axis `d` of the result shows the voxels
+`s_d … s_d + c_d - 1`, so the result has exactly the requested shape; it is an indexing operation, hence everything proved
+for `__getitem__` applies. -/
+theorem random_crop_spec (g : Geom) (c0 c1 c2 s0 s1 s2 : Int)
+    (h0 : 1 ≤ c0 ∧ c0 ≤ g.n0 ∧ 0 ≤ s0 ∧ s0 ≤ g.n0 - c0) (h1 : 1 ≤ c1 ∧ c1 ≤ g.n1 ∧ 0 ≤ s1 ∧ s1 ≤ g.n1 - c1)
+    (h2 : 1 ≤ c2 ∧ c2 ≤ g.n2 ∧ 0 ≤ s2 ∧ s2 ≤ g.n2 - c2) :
+    ∃ r, randomCropG AxMap.size g [c0, c1, c2] [s0, s1, s2] = .ok r ∧
+      getitemG AxMap.size g [.slice (some s0) (some (s0 + c0)) none, .slice (some s1) (some (s1 + c1)) none,
+                             .slice (some s2) (some (s2 + c2)) none] = .ok r ∧
+      (r.1.n0 = c0 ∧ r.1.n1 = c1 ∧ r.1.n2 = c2) ∧ ∀ j, r.2 j = ⟨s0 + j.i0, s1 + j.i1, s2 + j.i2⟩ := by
+  have e := randomCropG_spec AxMap.size g c0 c1 c2 s0 s1 s2 h0 h1 h2
+  refine ⟨_, e, ?_, ⟨rfl, rfl, rfl⟩, fun j => ?_⟩
+  · have r0 := range_axis_accept (n := g.n0) (f := s0) (e := s0 + c0) h0.2.2.1 (by omega) (by omega)
+    have r1 := range_axis_accept (n := g.n1) (f := s1) (e := s1 + c1) h1.2.2.1 (by omega) (by omega)
+    have r2 := range_axis_accept (n := g.n2) (f := s2) (e := s2 + c2) h2.2.2.1 (by omega) (by omega)
+    simp only [add_sub_cancel_left] at r0 r1 r2
+    exact getitemG_three AxMap.size g _ _ _ r0 r1 r2
+  · simp [remapSrc]
+
+/-- a requested size beyond the axis is refused (ValueError) whatever would be drawn -/
+theorem random_crop_refuses_larger (c n s : Int) (h : n < c) : randomCropAxis c n s = .error .value :=
+  randomCropAxis_refuses c n s h
+
+/-- **random_flip_spatial is flip_spatial of a subset of `axes`**: whatever is drawn, an accepted call returns exactly what
+`flip_spatial(S)` returns for some `S ⊆ axes` (shape, affine and index map) — `slice(None, None, -1)` and
+`slice(-1, None, -1)` are the same axis map; axes not listed are never flipped; valid `axes` with binary draws are accepted. -/
+theorem random_flip_is_flip (g : Geom) (hp : g.Pos) (axes draws : List Int) (r : GStep)
+    (h : randomFlipG AxMap.size g axes draws = .ok r) :
+    ∃ b0 b1 b2, (b0 = true → axes.contains 0 = true) ∧ (b1 = true → axes.contains 1 = true) ∧
+      (b2 = true → axes.contains 2 = true) ∧ flipG AxMap.size g (flagAxes b0 b1 b2) = .ok r :=
+  randomFlipG_is_flip AxMap.size hp h
+
+theorem random_flip_accepts (axes : List Int) (x0 x1 x2 : Int) (hv : randomAxesOk axes = true)
+    (h0 : x0 = 0 ∨ x0 = 1) (h1 : x1 = 0 ∨ x1 = 1) (h2 : x2 = 0 ∨ x2 = 1) :
+    ∃ items, randomFlipItems axes [x0, x1, x2] = .ok items :=
+  randomFlipItems_accepts axes x0 x1 x2 hv h0 h1 h2
+
+/-- **Bridge (T9m)**: the hand-written validation of `axes` accepts exactly the lists the source's if-raise statements
+accept (evaluated on every list over -1..3 of length ≤ 4; the hand-written test accepts nothing outside that domain). -/
+theorem bridge_random_axes_validation (axes : List Int) : randomAxesOk axes = true ↔ axes ∈ randomAxesAccepted :=
+  randomAxesOk_iff_source axes
+
+/-- **random_permute_spatial_axes**: valid `axes` (2 or 3 of them) and ANY rearrangement the generator may return: the call
+reaches `permute_spatial_axes` with indices that are accepted (a permutation of 0, 1, 2; the completion of a drawn pair by
+the missing axis is regenerated, T9m), every axis not listed keeps its place, listed axes go to listed places. -/
+theorem random_permute_spec (axes drawn : List Int) (hv : randomAxesOk axes = true)
+    (hr : isRearrangement axes drawn = true) : randomPermuteGood axes drawn = true :=
+  randomPermute_good hv hr
+
+/-! ## non-vacuity (round 2) -/
+
+example : ((flipG AxMap.size g0 [0, 2]).toBool = true) ∧ ([0, 2].length > 3 || [0, 2].any (fun a => !validAxis a)) = false := by
+  decide +kernel
+example : (permuteG g0 [1, 2, 0]).toBool = true ∧ (swapG g0 0 2).toBool = true := by decide +kernel
+example : (padToG AxMap.size g0 [5, 3, 8]).toBool = true := by decide +kernel
+/-- flip, then the same flip, on the volume `v0`: accepted, hypotheses of `inverse_pair_restores_volume` hold -/
+example : ((SOp.flip [1]).applyVol .patient v0).toBool = true ∧ (SOp.flip [1]).keepsAll = true ∧ (SOp.flip [1]).cropping = true :=
+  by decide +kernel
+example : v0.Shows (g0.pos ⟨1, 2, 3⟩) [1, 2] (1 + 20 + 300 + 3) := ⟨⟨1, 2, 3⟩, by decide +kernel, rfl, by decide +kernel⟩
+example : allSpatial SOp.rearranges [.spatial (.flip [0]), .spatial (.permute [2, 0, 1]), .spatial .copy] := by
+  intro op hop
+  simp only [List.mem_cons, List.not_mem_nil, or_false] at hop
+  rcases hop with rfl | rfl | rfl <;> exact ⟨_, rfl, rfl⟩
+example : (runHistory .patient v0 [.spatial (.flip [0]), .spatial (.permute [2, 0, 1]), .spatial .copy]).toBool = true := by
+  decide +kernel
+/-- a square root that is right on the three columns of `g0` (lengths 3/2, 1/2, 2) -/
+def sq0 (x : Rat) : Rat := if x = 9 / 4 then 3 / 2 else if x = 1 / 4 then 1 / 2 else if x = 4 then 2 else 1
+example : ∀ d, g0.spacingWith sq0 d ≠ 0 := by intro d; cases d <;> decide +kernel
+example : accSpacing sq0 g0.entry g0.dim = [3 / 2, 1 / 2, 2] ∧ accPixelSpacing sq0 g0.entry g0.dim = [1 / 2, 2] ∧
+    accDirectionCosines sq0 g0.entry g0.dim = [0, 0, 1, -1, 0, 0] ∧ g0.leftHanded = false := by
+  refine ⟨?_, ?_, ?_, ?_⟩ <;>
+    norm_num [accSpacing, accPixelSpacing, accDirectionCosines, Geom.entry, Geom.dim, g0, sq0, Geom.leftHanded, Geom.triple,
+      V3.cross, V3.dot]
+example : (randomCropG AxMap.size g0 [2, 3, 1] [2, 0, 4]).toBool = true ∧ (randomFlipG AxMap.size g0 [2, 0] [1, 0]).toBool = true ∧
+    randomAxesOk [2, 0] = true ∧ isRearrangement [2, 0] [0, 2] = true ∧ randomPermuteList [2, 0] [2, 0] = .ok [2, 1, 0] := by
+  decide +kernel
 
 end HdVerif.C08
